@@ -542,22 +542,18 @@ Proof.
     apply Forall_app. split; [exact Hnr|]. constructor; [exact Hl|constructor].
 Qed.
 
-(* ---------- the whole client run: Q forward requests, finalize(N), then any number of requests (any number of passes) ---------- *)
-Theorem twolevel_run : forall k,
-  exists o0 m ls, run_case (PTwo P bs bst tj) ptl (repeat Next (Z.to_nat Q) ++ [Fin N] ++ repeat Next (S k)) = Ok (o0, m, ls)
-                  /\ mon_ok m /\ no_raise ls.
+(* ---------- the canonical prefix: Q forward requests, finalize(N), the request that yields EndForward ---------- *)
+Lemma canon_prefix : exists s1 m ls,
+  run_ops ptl (fsched PStart 0 None false) mon0 (repeat Next (Z.to_nat Q) ++ [Fin N; Next]) = (s1, m, ls) /\
+  s1 = tsched (ost PTOuter N 0 []) true /\ J s1 m /\ mon_ok m /\ no_raise ls.
 Proof.
-  intros k. pose proof Q_spec as [HQ1 HQ2]. unfold run_case, Sched.construct, Online.construct.
-  destruct (Z.ltb_spec P 1); [lia|].
-  assert (Hc : match bst with RAM | DISK => Ok (Online.mk (KTwo P bs bst tj) PStart 0 0 None [] false) | _ => Err ValueError end
-               = Ok (Online.mk (KTwo P bs bst tj) PStart 0 0 None [] false)) by (destruct bst_cp as [-> | ->]; reflexivity).
-  rewrite Hc. cbn [bind]. change {| ob := OOnline (Online.mk (KTwo P bs bst tj) PStart 0 0 None [] false); started := false |} with (fsched PStart 0 None false).
+  pose proof Q_spec as [HQ1 HQ2].
   destruct (sweep_phase (Z.to_nat Q) ltac:(lia)) as (s & m & ls & Hrun & HI & Hnr).
   rewrite run_ops_app, Hrun.
   assert (HS : exists j, Z.to_nat Q = S j) by (exists (Nat.pred (Z.to_nat Q)); lia). destruct HS as [j Hj].
   rewrite Hj in HI. inversion HI as [|j0 c cn Hc0]; subst. clear HI.
   assert (HQj : Z.of_nat (S j) = Q) by lia. rewrite HQj in *.
-  change ([Fin N] ++ repeat Next (S k)) with (Fin N :: Next :: repeat Next k). cbn [run_ops].
+  cbn [run_ops].
   assert (Hfin : finalize N (fsched PFwd (Q * P) None true) = (fsched PFwd N (Some N) true, None)).
   { unfold finalize, fsched. cbn [ob Online.b Online.k Online.pcv Online.snaps Online.exh started]. unfold Online.finalize.
     cbn [Online.max_n_ Online.n_ Online.r_]. destruct (Z.ltb_spec N 1); [lia|]. destruct (Z.geb_spec (Q * P) N); [|lia]. reflexivity. }
@@ -590,10 +586,26 @@ Proof.
       rewrite !binpart_nil, Hj. cbn [app]. repeat split; auto. rewrite Hc0, Hmin. reflexivity.
     - unfold NNx, x1. cbn [TLInv.fwd TLInv.wdeps TLInv.bin TLInv.rr TLInv.lookup]. repeat split; try discriminate; try lia.
       intros v Hv; injection Hv as <-; lia. }
-  pose proof (run_nexts ptl J J_step k _ _ HJ eq_refl) as Hr.
-  destruct (run_ops ptl s1 _ (repeat Next k)) as [[s2 m2] l2]. destruct Hr as (_ & Hm2 & Hl2).
-  eexists _, _, _. split; [reflexivity|]. split; [exact Hm2|].
-  apply Forall_app. split; [exact Hnr|]. constructor; [exact Logic.I|]. constructor; [exact Logic.I|exact Hl2].
+  cbn [run_ops]. eexists _, _, _. split; [reflexivity|]. split; [reflexivity|]. split; [exact HJ|]. split; [reflexivity|].
+  apply Forall_app. split; [exact Hnr|]. constructor; [exact Logic.I|]. constructor; [exact Logic.I|constructor].
+Qed.
+
+(* ---------- the whole client run: Q forward requests, finalize(N), then any number of requests (any number of passes) ---------- *)
+Theorem twolevel_run : forall k,
+  exists o0 m ls, run_case (PTwo P bs bst tj) ptl (repeat Next (Z.to_nat Q) ++ [Fin N] ++ repeat Next (S k)) = Ok (o0, m, ls)
+                  /\ mon_ok m /\ no_raise ls.
+Proof.
+  intros k. unfold run_case, Sched.construct, Online.construct.
+  destruct (Z.ltb_spec P 1); [lia|].
+  assert (Hc : match bst with RAM | DISK => Ok (Online.mk (KTwo P bs bst tj) PStart 0 0 None [] false) | _ => Err ValueError end
+               = Ok (Online.mk (KTwo P bs bst tj) PStart 0 0 None [] false)) by (destruct bst_cp as [-> | ->]; reflexivity).
+  rewrite Hc. cbn [bind]. change {| ob := OOnline (Online.mk (KTwo P bs bst tj) PStart 0 0 None [] false); started := false |} with (fsched PStart 0 None false).
+  destruct canon_prefix as (s1 & m1 & l1 & Hrun & _ & HJ & Hm1 & Hnr).
+  replace (repeat Next (Z.to_nat Q) ++ [Fin N] ++ repeat Next (S k)) with ((repeat Next (Z.to_nat Q) ++ [Fin N; Next]) ++ repeat Next k) by (rewrite <- app_assoc; reflexivity).
+  rewrite run_ops_app, Hrun.
+  pose proof (run_nexts ptl J J_step k _ _ HJ Hm1) as Hr.
+  destruct (run_ops ptl s1 m1 (repeat Next k)) as [[s2 m2] l2]. destruct Hr as (_ & Hm2 & Hl2).
+  eexists _, _, _. split; [reflexivity|]. split; [exact Hm2|]. apply Forall_app. split; [exact Hnr|exact Hl2].
 Qed.
 
 (* ---------- C13, totals: forward steps per pass ---------- *)
